@@ -4,8 +4,16 @@
 //   ops: e<flops>[:cat]  exec (optionally in a tracing category)      s<seconds>   sleep
 //        S<mbox>:<bytes>[:cat] detached send                            R<mbox>      receive if a message is pending
 //        c<actor line index>   create that (non-autostart) actor now   k<actor line index> kill it (if alive)
+//        P<mbox>:<bytes>:<timeout>  blocking put as Mailbox::put(payload, bytes, timeout) does it (start + wait_for_or_cancel)
+//        G<mbox>:<timeout>          blocking get with a timeout (get_init + start + wait_for_or_cancel)
+//        X<mbox>:<bytes>:<delay>    put_async, sleep <delay>, cancel the communication
+//        F<delay>                   turn every link of the platform off, sleep <delay>, turn them on again
 //   first line: categories: cat <name>*
-// The produced trace file is the observation; this program prints nothing but "done <clock>".
+// The produced trace file is the observation.  stdout: "done <clock>" and, for the classification of what the trace shows,
+// one line per communication operation of an actor, in the actor's program order:
+//     C <actor container name = name-pid> <send|recv> <outcome> <matched 0|1>
+// outcome: done | detached | timeout | netfail | cancel (exception received) | canceled-by-me;   matched: the
+// communication had both a sender and a receiver when the operation ended;  and "K <container name>" when an actor is killed.
 #include <simgrid/instr.h>
 #include <simgrid/s4u.hpp>
 #include <cstdio>
@@ -25,6 +33,29 @@ static std::vector<ActorSpec> specs;
 static std::map<int, sg4::ActorPtr> live;
 
 static void run_actor(int idx);
+static std::string me()
+{
+  return sg4::this_actor::get_name() + "-" + std::to_string(sg4::this_actor::get_pid());
+}
+static void logc(const char* dir, const char* outcome, const sg4::CommPtr& c)
+{
+  printf("C %s %s %s %d\n", me().c_str(), dir, outcome, (c->get_sender() != nullptr && c->get_receiver() != nullptr) ? 1 : 0);
+  fflush(stdout);
+}
+// wait for `c` as Mailbox::put / get with a timeout do; report how it ended
+static void wait_and_log(const char* dir, const sg4::CommPtr& c, double timeout)
+{
+  try {
+    c->wait_for_or_cancel(timeout);
+    logc(dir, "done", c);
+  } catch (const simgrid::TimeoutException&) {
+    logc(dir, "timeout", c);
+  } catch (const simgrid::NetworkFailureException&) {
+    logc(dir, "netfail", c);
+  } catch (const simgrid::CancelException&) {
+    logc(dir, "cancel", c);
+  }
+}
 static void start(int idx)
 {
   auto hosts = sg4::Engine::get_instance()->get_all_hosts();
@@ -57,15 +88,50 @@ static void run_actor(int idx)
         auto c             = sg4::Mailbox::by_name("m" + parts[0])->put_init(&payload, std::stoull(parts[1]));
         if (parts.size() > 2)
           c->set_tracing_category(parts[2]);
+        printf("C %s send detached 0\n", me().c_str());
         c->detach(); // fire and forget: an unmatched send never blocks the end of the simulation
+        break;
+      }
+      case 'P': {
+        static int payload = 0;
+        auto c = sg4::Mailbox::by_name("m" + parts[0])->put_init(&payload, static_cast<uint64_t>(std::stod(parts[1])));
+        c->start();
+        wait_and_log("send", c, std::stod(parts[2]));
+        break;
+      }
+      case 'G': {
+        int* data = nullptr;
+        auto c    = sg4::Mailbox::by_name("m" + parts[0])->get_init()->set_dst_data(reinterpret_cast<void**>(&data), sizeof(void*));
+        c->start();
+        wait_and_log("recv", c, std::stod(parts[1]));
+        break;
+      }
+      case 'X': {
+        static int payload = 0;
+        auto c = sg4::Mailbox::by_name("m" + parts[0])->put_async(&payload, static_cast<uint64_t>(std::stod(parts[1])));
+        sg4::this_actor::sleep_for(std::stod(parts[2]));
+        bool matched = c->get_receiver() != nullptr;
+        c->cancel();
+        printf("C %s send canceled-by-me %d\n", me().c_str(), matched ? 1 : 0);
+        fflush(stdout);
+        break;
+      }
+      case 'F': {
+        auto links = sg4::Engine::get_instance()->get_all_links();
+        for (auto* l : links)
+          l->turn_off();
+        sg4::this_actor::sleep_for(std::stod(parts[0]));
+        for (auto* l : links)
+          l->turn_on();
         break;
       }
       case 'R': {
         // receive only what is already there (no blocking receive: killed senders must not deadlock the script)
         auto* mb = sg4::Mailbox::by_name("m" + parts[0]);
-        if (mb->listen())
+        if (mb->listen()) {
           mb->get<int>();
-        else
+          printf("C %s recv done 1\n", me().c_str());
+        } else
           sg4::this_actor::sleep_for(0.1);
         break;
       }
@@ -77,8 +143,13 @@ static void run_actor(int idx)
       }
       case 'k': {
         int t = std::stoi(parts[0]);
-        if (live.find(t) != live.end() && t != idx)
+        if (live.find(t) != live.end() && t != idx) {
+          if (sg4::Actor::by_pid(live[t]->get_pid()) != nullptr) { // still running: the kill will interrupt something
+            printf("K %s-%ld\n", live[t]->get_cname(), static_cast<long>(live[t]->get_pid()));
+            fflush(stdout);
+          }
           live[t]->kill();
+        }
         break;
       }
       default:
